@@ -132,7 +132,7 @@ def main():
         i += 1
     jobs = queue.Queue()
     for pid in ids:
-        for k in (1, 2):
+        for k in ((1,) if os.environ.get("SEED_ONE") else (1, 2)):
             jobs.put((pid, k))
     lock = threading.Lock()
 
